@@ -185,6 +185,7 @@ func c11Scenarios(thorough bool) []c11Scenario {
 		{3, []int{0, 1, 3}, []int{1, 2}},                // struct keys
 		{0, []int{0, 1, 2, 3, 4}, []int{0, 1, 2}},       // uint {1..5}, height 2: deleting 2 merges the leaves [1] and [3] and the merged leaf stays in the tree
 		{4, []int{0, 1, 3, 4, 5, 6, 2}, []int{3, 1, 0}}, // bf 4, key 3 inserted last (its leaf's slices grow by append): deleting 4 merges [1 2 3] and [5]
+		{1, []int{0, 1, 2, 5, 6, 7}, []int{7, 3}},       // the same user-key tree: its top node holds only the maximum key 80 (right link nil); deleting 80 makes the cached child the top node; 40 goes in below it
 	}
 	for pi, pl := range plans {
 		cfg := c11Configs()[pl.cfg]
@@ -208,7 +209,7 @@ func c11Scenarios(thorough bool) []c11Scenario {
 					if !thorough && pi == 2 && capt == "clone" {
 						continue
 					}
-					if pi == 5 && !(a.Kind == "del" || a.Kind == "ins" || b.Kind == "del" || b.Kind == "ins") {
+					if pi >= 5 && !(a.Kind == "del" || a.Kind == "ins" || b.Kind == "del" || b.Kind == "ins") {
 						continue
 					}
 					if pi == 3 && (capt == "coldload" || a.Kind == "iter" || b.Kind == "iter" || a.Kind == "load" || b.Kind == "load" || a.Kind == "clone" || b.Kind == "clone" || a.Kind == "persist" || b.Kind == "persist") {
